@@ -323,7 +323,15 @@ fn leaf_goal(s: &mut dyn Src, cx: &GenCtx, m: &mut Mode) -> Goal {
                     }
                 }
                 1 => Goal::Nl,
-                _ => Goal::BuiltIn("print_list".into(), vec![list_operand(s, m)]),
+                _ => {
+                    // mostly one list; sometimes further list / non-list arguments in any order
+                    let n = 1 + weighted(s, &[4, 2, 1]);
+                    let mut args = vec![];
+                    for i in 0..n {
+                        if (i == 0 && !chance(s, 1, 4)) || chance(s, 1, 2) { args.push(list_operand(s, m)); } else { args.push(ground_operand(s, m)); }
+                    }
+                    Goal::BuiltIn("print_list".into(), args)
+                }
             }
         }
     };
